@@ -71,5 +71,14 @@ func (p suffixedPartition) IntermediateKeyID() string {
 
 // IsValidIntermediateKeyID ensures the given ID is a valid intermediate key ID for this partition.
 func (p suffixedPartition) IsValidIntermediateKeyID(id string) bool {
-	return id == p.IntermediateKeyID() || strings.Index(id, p.defaultPartition.IntermediateKeyID()) == 0
+	if id == p.IntermediateKeyID() || id == p.defaultPartition.IntermediateKeyID() {
+		return true
+	}
+
+	// Keys created in another region are named <unsuffixed id>_<region suffix>. Only accept a single
+	// trailing token: a bare prefix match would also accept the keys of any other partition whose id
+	// merely starts with this partition's id followed by the service and product names.
+	suffix, ok := strings.CutPrefix(id, p.defaultPartition.IntermediateKeyID()+"_")
+
+	return ok && suffix != "" && !strings.Contains(suffix, "_")
 }
